@@ -167,6 +167,43 @@ func checkC03(c *Ctx, r *Report) {
 		r.Rule("session-wrapper-literal", "", 6)
 		r.Lost("in-session send closure")
 	}
+	// what is transmitted is a completely serialised packet: no path reaches the transmission
+	// after a serialisation that failed (gopacket leaves the layers written so far — the inner
+	// ones, in the clear — in the buffer)
+	r.Rule("sent-only-if-serialised", "in the in-session operation the transmission is reached only on paths on which SerializeLayers returned nil", 1)
+	for _, s := range c.SendClosures() {
+		if !s.Session || s.Send == nil {
+			continue
+		}
+		name := c.FnName(s.Fn)
+		okS, nS := true, 0
+		posS := s.Send.Pos()
+		completeS := enumPaths(s.Fn, 1, 100000, func(p CPath) {
+			idx := pathIndex(p)
+			sendAt, on := idx[s.Send]
+			if !on {
+				return
+			}
+			for _, in := range p.Instrs() {
+				call, ok := in.(*ssa.Call)
+				if !ok || !isCallTo(in, fnSerializeLayers) {
+					continue
+				}
+				if at, has := idx[call]; !has || at > sendAt {
+					continue
+				}
+				nS++
+				if p.nilFound(call) != 0 {
+					okS, posS = false, call.Pos()
+				}
+			}
+		})
+		if !completeS {
+			r.Unk(name+"|sent only if serialised", s.Send.Pos(), "too many paths")
+			continue
+		}
+		r.Check(okS && nS > 0, name+"|sent only if serialised", posS, "every path to the transmission found the serialisation error nil", "a path reaches the transmission although SerializeLayers failed (or its error was not examined): the buffer then holds a partial packet — inner layers in the clear, no session wrapper, no AuthCode")
+	}
 	checkFreshLayers(c, r, "fresh-layers")
 
 	// ---- (2) session wrapper serialiser
